@@ -339,8 +339,10 @@ def gen_identifier(rng, tier):
 
 def gen_word(rng, tier):
     yield {"s": "".join(chr(i) for i in range(0, 256))}
+    blocks = [(0x80, 0x800), (0x800, 0x3000), (0x3000, 0xD800), (0xE000, 0x10000), (0x10000, 0x20000), (0x20000, 0x110000)]
     for _ in range(200 if tier == "quick" else 4000):
-        yield {"s": "".join(chr(rng.choice([rng.randrange(0x80, 0xD800), rng.randrange(0xE000, 0x110000)])) for _ in range(40))}
+        lo, hi = rng.choice(blocks)
+        yield {"s": "".join(chr(rng.randrange(lo, hi)) for _ in range(40))}
 
 
 ATTR_NAMES = [
@@ -737,14 +739,16 @@ def gen_detect_circular(rng, tier):
             rng.shuffle(order)
         elif r < 0.6:
             order = order[: rng.randint(0, len(order))]
+        elif r < 0.7:
+            order = order + [rng.choice(order) for _ in range(rng.randint(1, 3))]  # a class processed again
         yield with_flat({"classes": roots, "order": order})
 
 
 def gen_is_circular(rng, tier):
     for _ in range(300 if tier == "quick" else 6000):
         n = rng.choice([1, 2, 3, 4, 5, 6])
-        roots, ids = _rand_forest(rng, n, dangling=rng.random() < 0.1, preflag=rng.random() < 0.3)
-        yield with_flat({"classes": roots, "start": rng.choice(ids + [95]), "stop": rng.choice(ids)})
+        roots, ids = _rand_forest(rng, n, dangling=rng.random() < 0.04, preflag=rng.random() < 0.3)
+        yield with_flat({"classes": roots, "start": rng.choice(ids * 4 + [95]), "stop": rng.choice(ids)})
 
 
 def classify_circular(a, out):
@@ -769,6 +773,14 @@ def oracle_circular(a):
         return "DetectCircularReferences raised KeyError without a dangling reference"
     except Exception as e:  # noqa: BLE001
         return f"DetectCircularReferences raised {type(e).__name__}: {e}"
+    # a second pass over the same classes with the same handler (its cache is built once) finds nothing new
+    try:
+        twice = run_detect_circular({**a, "order": list(a["order"]) + list(a["order"])})[0]
+    except Exception as e:  # noqa: BLE001
+        return f"processing the classes a second time raised {type(e).__name__}"
+    if twice != flags:
+        k = [i for i, (x, y) in enumerate(zip(flags, twice)) if x != y][0]
+        return f"a second pass over the same classes changes the flag of type object #{k}: the result depends on earlier calls"
     nodes = {n["id"]: n for n in _walk_nodes(a["classes"])}
     flag_of = {id(t): f for (t, _), f in zip(types, flags)}
 
@@ -861,6 +873,63 @@ def gen_ref_class_qname(rng, tier):
                            "inner_names": rng.sample(["a", "A_1", "a1", "b", "x1", "a_2"], rng.randint(0, 4)) if inner else []}
 
 
+def _idx_suffix(name, out):
+    if "err" in out:
+        return "err:" + out["err"]
+    r = out["ok"]
+    if r == name:
+        return "unchanged"
+    m = re.search(r"_(\d+)$", r)
+    k = int(m.group(1)) if m else 0
+    return "index=1" if k == 1 else ("index=2..4" if k <= 4 else "index>=5")
+
+
+def classify_words(a, out):
+    if "err" in out:
+        return "err"
+    n = len(out["ok"])
+    s = a["s"]
+    feat = ("nonascii" if any(ord(c) > 127 for c in s) else "ascii") + ("+caps-run" if re.search(r"[A-Z]{2}", s) else "")
+    return f"words={min(n, 3)}{'+' if n > 3 else ''} {feat}"
+
+
+def classify_clean_uri(a, out):
+    s = a["s"]
+    head = "##" if s.startswith("##") else ("urn" if s.startswith("urn:") else ("http(s)" if re.match(r"https?:", s) else ("other-scheme" if ":" in s else "plain")))
+    dropped = any(p in ("www", "xsd", "wsdl") for p in s.split("."))
+    return head + ("+ignored-part" if dropped else "")
+
+
+def classify_rename_classes(a, out):
+    if "err" in out:
+        return "err:" + out["err"]
+    cs = a["classes"]
+    news = out["ok"]
+    kinds = set()
+    for c, q in zip(cs, news):
+        if q == c["qname"]:
+            continue
+        if q == c["qname"] + "_abstract":
+            kinds.add("abstract-suffix")
+        elif c["abstract"] and re.search(r"_\d+$", q):
+            kinds.add("numeric(abstract class)")
+        else:
+            kinds.add("numeric")
+    unique = a["style"] in ("single-package", "clusters") or len({c["location"] for c in cs}) == 1
+    return ("by-name " if unique else "by-qname ") + ("+".join(sorted(kinds)) or "unchanged")
+
+
+def classify_e2e(a, o):
+    opts = a.get("opts", {})
+    feats = [a["kind"], opts.get("style", "filenames")]
+    for k in ("compound", "unnest", "relative_imports", "frozen", "slots"):
+        if opts.get(k):
+            feats.append(k)
+    if "err" in o:
+        return a["kind"] + ":" + (covered_pipeline(a, o["err"]) or "FAIL")
+    return " ".join(feats[:2]) + (" +" + "+".join(feats[2:4]) if feats[2:] else "")
+
+
 
 def classify_safe(a, out):
     if "err" in out:
@@ -880,12 +949,13 @@ def classify_safe(a, out):
 
 CORRS = [
     Corr("names.split_words", gen_split_words, impl_split_words, nontrivial=lambda a, o: len(a["s"]) > 1,
-         describe="text.split_words"),
-    Corr("names.alnum", gen_alnum, impl_alnum, nontrivial=lambda a, o: len(a["s"]) > 0),
+         describe="text.split_words", classify=classify_words),
+    Corr("names.alnum", gen_alnum, impl_alnum, nontrivial=lambda a, o: len(a["s"]) > 0,
+         classify=lambda a, o: "empty-slug" if o.get("ok") == "" else ("digit-first" if o.get("ok", "x")[0].isdigit() else "letter-first")),
     Corr("names.case", gen_case, impl_case, nontrivial=lambda a, o: len(a["s"]) > 1,
          describe="NameCase(value)(string) for the eight cases",
          classify=lambda a, o: a["case"] + (":err" if "err" in o else "")),
-    Corr("names.kebab", gen_kebab, impl_kebab),
+    Corr("names.kebab", gen_kebab, impl_kebab, classify=lambda a, o: "with-dash" if "-" in o.get("ok", "") else "one-word-or-empty"),
     Corr("names.safe_name", gen_safe_name, impl_safe_name, nontrivial=lambda a, o: len(a["s"]) > 0,
          describe="Filters.safe_name(name, prefix, case)", classify=classify_safe),
     Corr("names.filter", gen_filter, impl_filter, nontrivial=lambda a, o: len(a["s"]) > 0,
@@ -894,16 +964,19 @@ CORRS = [
     Corr("names.filters_init", gen_filters_init, impl_filters_init,
          describe="Filters(config): safe prefixes accepted / rejected with CodegenError",
          classify=lambda a, o: "rejected" if "err" in o else "accepted"),
-    Corr("names.clean_uri", gen_clean_uri, impl_clean_uri),
+    Corr("names.clean_uri", gen_clean_uri, impl_clean_uri, classify=classify_clean_uri),
     Corr("names.is_identifier", gen_identifier, impl_is_identifier, nontrivial=lambda a, o: len(a["s"]) > 0,
          describe="spec: str.isidentifier", classify=lambda a, o: str(o.get("ok"))),
     Corr("names.is_keyword", gen_identifier, impl_is_keyword, classify=lambda a, o: str(o.get("ok"))),
-    Corr("names.is_word", gen_word, impl_is_word, describe=r"re \w per character"),
+    Corr("names.is_word", gen_word, impl_is_word, describe=r"re \w per character",
+         classify=lambda a, o: "latin-1 block" if max(map(ord, a["s"])) < 256 else ("BMP" if max(map(ord, a["s"])) < 0x10000 else "astral")),
     Corr("names.rename_attrs", gen_rename_attrs, impl_rename_attrs, nontrivial=lambda a, o: len(a["attrs"]) > 1,
          describe="ClassUtils.rename_duplicate_attributes", classify=classify_rename),
-    Corr("names.unique_name", gen_unique_name, impl_unique_name),
-    Corr("names.next_qname", gen_next_qname, impl_next_qname),
-    Corr("names.next_available_name", gen_next_available_name, impl_next_available_name),
+    Corr("names.unique_name", gen_unique_name, impl_unique_name, classify=lambda a, o: _idx_suffix(a["name"], o)),
+    Corr("names.next_qname", gen_next_qname, impl_next_qname,
+         classify=lambda a, o: ("by-name " if a["use_names"] else "by-qname ") + ("ns " if a["ns"] else "no-ns ") + _idx_suffix(a["name"], o)),
+    Corr("names.next_available_name", gen_next_available_name, impl_next_available_name,
+         classify=lambda a, o: _idx_suffix(a["name"], o)),
     Corr("names.e2e_fields", gen_e2e_fields, impl_e2e_fields, nontrivial=lambda a, o: len(a["attrs"]) > 1,
          describe="whole real pipeline on one complexType / enumeration vs model(rename_duplicate_attributes ∘ field/constant_name)",
          classify=lambda a, o: ("enum" if a["attrs"][0]["tag"] == "Enumeration" else "complexType") + (":err" if "err" in o else "")),
@@ -920,7 +993,7 @@ CORRS = [
          classify=lambda a, o: ("inner" if a["inner"] else "root") + (":err" if "err" in o else "")),
     Corr("names.rename_classes", gen_rename_classes, impl_rename_classes, nontrivial=lambda a, o: len(a["classes"]) > 1,
          describe="RenameDuplicateClasses.run (renames only)",
-         classify=lambda a, o: "renamed" if o.get("ok") != [c["qname"] for c in a["classes"]] else "unchanged"),
+         classify=classify_rename_classes),
 ]
 
 # ----------------------------------------------------------------- oracles
@@ -1532,7 +1605,15 @@ def masked_import_error(g, opts, kind):
     hide a package that simply does not import."""
     cause = g.error.__cause__ or g.error.__context__
     if not isinstance(cause, ImportError):
-        return None
+        # CodegenError is the generator's answer to input it cannot handle; the consistency checks of
+        # ValidateReferences / DependenciesResolver / the container failing on a *valid* source is an
+        # internal error in disguise
+        text_ = str(g.error)
+        legit = ("Json keys can not be empty", "Invalid safe prefix",
+                 "Found strongly connected types from different namespaces")
+        if any(text_.startswith(x) for x in legit):
+            return None
+        return f"generation gave up on a valid source with an internal consistency error: CodegenError({text_!r}, {getattr(g.error, 'meta', {})!r})"[:300]
     style = opts.get("style", "filenames")
     what = (f"the generated package does not import ({type(cause).__name__}: {str(cause).split(' (')[0][:110]}), "
             f"reported as CodegenError('{g.error}') under structure style {style}")
@@ -1652,6 +1733,16 @@ def covered_pipeline(a, msg):
                 if len(set(slugs)) == len(slugs):
                     return "C07-safe-prefix-collision"
         return None
+    m = re.search(r"duplicate inner class names (\[.*\])", msg)
+    if m:
+        inner = ast.literal_eval(m.group(1))
+        ccase = a.get("opts", {}).get("class_case", "pascalCase")
+        for dup in {x for x in inner if inner.count(x) > 1}:
+            cands = {n for n in names if ref_safe_name(n, "type", ccase) == dup}
+            # inner classes named after elements with different slugs that the documented safe_name maps to one name
+            if len({own_slug(n) for n in cands}) < 2:
+                return None
+        return "C07-safe-prefix-collision"
     m = re.search(r"classes ('(?:[^'\\]|\\.)*') and ('(?:[^'\\]|\\.)*') are both named ('(?:[^'\\]|\\.)*')", msg)
     if m:
         q1, q2, final = (ast.literal_eval(x) for x in m.groups())
@@ -1878,12 +1969,6 @@ def spec_e2e(a):
 
 def gen_e2e(rng, tier):
     yield from gen_pipeline(rng, tier)
-
-
-def classify_e2e(a, o):
-    if "err" in o:
-        return a["kind"] + ":" + (covered_pipeline(a, o["err"]) or "FAIL")
-    return a["kind"] + ":importable"
 
 
 def adapt_ident(op, a):
